@@ -1,0 +1,39 @@
+//go:build verif
+
+/*
+Copyright 2025 The Volcano Authors.
+
+Licensed under the Apache License, Version 2.0 (the "License");
+you may not use this file except in compliance with the License.
+You may obtain a copy of the License at
+
+    http://www.apache.org/licenses/LICENSE-2.0
+
+Unless required by applicable law or agreed to in writing, software
+distributed under the License is distributed on an "AS IS" BASIS,
+WITHOUT WARRANTIES OR CONDITIONS OF ANY KIND, either express or implied.
+See the License for the specific language governing permissions and
+limitations under the License.
+*/
+
+package cache
+
+import (
+	k8scache "k8s.io/client-go/tools/cache"
+)
+
+// This file only exists with the build tag "verif". SchedulerCache.NewTaskInfo
+// counts the CSI volumes of a pod through the PVC / PV / StorageClass listers;
+// a mock cache wires only the PVC informer. VerifVolumeStores wires the other
+// two exactly as newSchedulerCache does and hands out the three object stores,
+// so that an external harness can put objects in front of the (unstarted)
+// listers. Nothing here changes the behaviour of the cache.
+func (sc *SchedulerCache) VerifVolumeStores() (pvc, pv, storageClass k8scache.Store) {
+	if sc.pvInformer == nil {
+		sc.pvInformer = sc.informerFactory.Core().V1().PersistentVolumes()
+	}
+	if sc.scInformer == nil {
+		sc.scInformer = sc.informerFactory.Storage().V1().StorageClasses()
+	}
+	return sc.pvcInformer.Informer().GetStore(), sc.pvInformer.Informer().GetStore(), sc.scInformer.Informer().GetStore()
+}
